@@ -53,14 +53,14 @@ theorem sortedNames_perm {l₁ l₂ : List Int} (h : l₁.Perm l₂) : sortedNam
 
 theorem mem_sortedNames {l : List Int} {x : Int} : x ∈ sortedNames l ↔ x ∈ l := mem_sortBy leInt
 
-theorem keyLe_total (a b : Int × Int × Int) : keyLe a b = true ∨ keyLe b a = true := by
-  obtain ⟨a1, a2, a3⟩ := a; obtain ⟨b1, b2, b3⟩ := b
+theorem keyLe_total (a b : Int × Int × Int × Int × Int) : keyLe a b = true ∨ keyLe b a = true := by
+  obtain ⟨a1, a2, a3, a4, a5⟩ := a; obtain ⟨b1, b2, b3, b4, b5⟩ := b
   simp only [keyLe, decide_eq_true_eq]; omega
-theorem keyLe_trans (a b c : Int × Int × Int) : keyLe a b = true → keyLe b c = true → keyLe a c = true := by
-  obtain ⟨a1, a2, a3⟩ := a; obtain ⟨b1, b2, b3⟩ := b; obtain ⟨c1, c2, c3⟩ := c
+theorem keyLe_trans (a b c : Int × Int × Int × Int × Int) : keyLe a b = true → keyLe b c = true → keyLe a c = true := by
+  obtain ⟨a1, a2, a3, a4, a5⟩ := a; obtain ⟨b1, b2, b3, b4, b5⟩ := b; obtain ⟨c1, c2, c3, c4, c5⟩ := c
   simp only [keyLe, decide_eq_true_eq]; omega
-theorem keyLe_antisymm (a b : Int × Int × Int) : keyLe a b = true → keyLe b a = true → a = b := by
-  obtain ⟨a1, a2, a3⟩ := a; obtain ⟨b1, b2, b3⟩ := b
+theorem keyLe_antisymm (a b : Int × Int × Int × Int × Int) : keyLe a b = true → keyLe b a = true → a = b := by
+  obtain ⟨a1, a2, a3, a4, a5⟩ := a; obtain ⟨b1, b2, b3, b4, b5⟩ := b
   simp only [keyLe, decide_eq_true_eq, Prod.mk.injEq]; omega
 
 /-! ### sorting commutes with a relation that preserves what the comparison reads -/
